@@ -737,6 +737,16 @@ class Model:
             # creator constructs DuplicateBinding -> group map ; creator seeds the stage walk -> stage map
             f = ogp.crate.fns.get(creator)
             body = json.dumps(f['body']) if f else ''
+            # helpers called by the creator count as part of it
+            g = ogp.crate.call_graph()
+            seen, st = set(), [creator]
+            while st:
+                x = st.pop()
+                if x in seen or x not in g:
+                    continue
+                seen.add(x)
+                st.extend(g[x])
+            body = ' '.join(json.dumps(ogp.crate.fns[x]['body']) for x in seen if x in ogp.crate.fns)
             if 'DuplicateBinding' in body:
                 r = self.group_map
             elif 'entry_points' in body:
